@@ -10,7 +10,7 @@ W_ASSUME = [
 PROPS = {
     "C01": {
         "level": "exploration",
-        "cases": {"quick": 400, "thorough": 8000},
+        "cases": {"quick": 1600, "thorough": 16000},
         "rule": "cases = generated (configuration, hierarchy set-up, operation history) triples run against an in-process krill; "
         "distinct by hash of the canonical case JSON; non-trivial iff the history exercised at least one of: ROA aggregation "
         "mode switch between checkpoints, entitlement shrink followed by regain with ROAs present, a prefix held under two "
